@@ -172,7 +172,20 @@ def views(rng, nview, counters, digests, violations, samples):
             violations.append(dict(wit, what="C16 _knobs_to_x(%s) = %s, expected knob/weight = %s" % (k, err._knobs_to_x(k), want_x)))
         for rs, rx in itertools.product((False, True), (None, (0.0, 1.0), (-1.0, 1.0), (2.0, 7.0))):
             view = S.opt.get_merit_function(return_scalar=rs, rescale_x=rx, check_limits=False)
-            xv = np.array(view.get_x(), dtype=float)
+            # (not view.get_x(): the finite-difference probes of the previous view leave the knobs displaced)
+            xn0 = np.array(err._knobs_to_x(spec["x0"]), dtype=float)
+            xv = np.array(view._scaled_from_native(xn0), dtype=float) if rx is not None else xn0
+            where = rng.choice(["interior", "interior", "upper", "lower", "mixed"])
+            if where != "interior":
+                # next to the box edges (where bounded optimizers evaluate): every knob closer to one of its
+                # limits than one finite-difference step, but strictly inside (exactly ON a limit the
+                # knob <-> x rounding may land outside and the merit function's own limit check raises)
+                lims_n = np.array(err._get_x_limits(), dtype=float)
+                steps_n = np.array(err._knobs_to_x(err.steps_for_jacobian), dtype=float)
+                pick = {"upper": [1] * n, "lower": [0] * n, "mixed": [rng.randrange(2) for _ in range(n)]}[where]
+                xn = np.array([lims_n[i, 1] - 0.3 * steps_n[i] if pick[i] else lims_n[i, 0] + 0.3 * steps_n[i] for i in range(n)])
+                xv = np.array(view._scaled_from_native(xn), dtype=float) if rx is not None else xn
+                counters["view_jacobians_next_to_limits"] = counters.get("view_jacobians_next_to_limits", 0) + 1
             if rx is not None:
                 nat = view._scaled_to_native(xv)
                 back = view._scaled_from_native(nat)
